@@ -135,6 +135,7 @@ pub struct Ctx {
     pub assumptions: Vec<String>,
     pub exhaustive_parts: Vec<String>,
     pub inconclusive: Vec<String>,
+    pub max_shrink_iters: u32,
     pub start: Instant,
 }
 
@@ -158,6 +159,7 @@ impl Ctx {
             assumptions: vec![],
             exhaustive_parts: vec![],
             inconclusive: vec![],
+            max_shrink_iters: 4096,
             start: Instant::now(),
         }
     }
@@ -322,6 +324,7 @@ where
     let merged: Mutex<(Stats, Vec<Violation>, Vec<String>)> = Mutex::new((Stats::new(), vec![], vec![]));
     let fam_salt = fp(&(family, &ctx.property));
     let seed = ctx.seed;
+    let shrink_iters = ctx.max_shrink_iters;
     std::thread::scope(|sc| {
         for w in 0..workers {
             let make_strategy = &make_strategy;
@@ -335,7 +338,7 @@ where
                     cases: per as u32,
                     failure_persistence: None,
                     rng_seed: RngSeed::Fixed(wseed),
-                    max_shrink_iters: 4096,
+                    max_shrink_iters: shrink_iters,
                     max_shrink_time: 0,
                     verbose: 0,
                     source_file: None,
